@@ -287,6 +287,10 @@ func (w *world) step(op *model.Op) bool {
 		}
 	case op.Kind == "PushBlob" && op.Size != int64(len(op.Data)):
 		// a declared size that disagrees with the body cannot be put on the wire: only failure is compared
+		run.Count("pushes_with_wrong_declared_size", 1)
+		if w.b.OpaqueReader {
+			run.Count("pushes_with_wrong_declared_size/from_opaque_reader", 1)
+		}
 		if outA.OK != outB.OK {
 			viol("differs/success/"+op.Kind, fmt.Sprintf("%s: directly %s, through HTTP %s", op, outA, outB))
 		}
@@ -328,7 +332,9 @@ func (w *world) step(op *model.Op) bool {
 	}
 
 	// ---- (1b) a failing call reports what B's own backend said (some backend error of this call)
-	if !outB.OK {
+	if !outB.OK && !(op.Kind == "PushBlob" && op.Size != int64(len(op.Data))) {
+		// (a declared size that disagrees with the body fails in the client's transport, whatever the
+		// backend made of the part that was sent)
 		var bes []error
 		for _, c := range calls {
 			if c.Err != nil {
@@ -773,6 +779,11 @@ func main() {
 		run.Eval(1)
 		// the caller reuses every buffer it handed to a Write
 		w.a.Scribble, w.b.Scribble = true, true
+		if h%3 == 1 {
+			// blobs pushed from readers that are nothing but readers
+			w.a.OpaqueReader, w.b.OpaqueReader = true, true
+			run.Count("histories_pushing_from_opaque_readers", 1)
+		}
 		opts := model.GenOpts{Uploads: true, BadRange: true}
 		if h%80 == 7 {
 			// a manifest larger than anything a registry front end is likely to have seen (the size itself is
@@ -846,9 +857,14 @@ func main() {
 			if op.Kind == "PushBlob" && op.MediaType == "" {
 				op.MediaType = "application/octet-stream"
 			}
-			if op.Digest != "" && !gram.ValidDigest(op.Digest) || op.Kind == "PushBlob" && op.Size != int64(len(op.Data)) {
-				// outside what a caller can put on the wire: syntactically invalid digests, and a declared
-				// size that disagrees with the body (net/http refuses to send it; C01 covers such pushes)
+			if op.Kind == "PushBlob" && op.Size != int64(len(op.Data)) && c.Loopback {
+				// over real sockets net/http fails the round trip while the server is still handling what
+				// it got: the backend calls of that request cannot be told from the next call's
+				continue
+			}
+			if op.Digest != "" && !gram.ValidDigest(op.Digest) {
+				// outside what a caller can put on the wire: syntactically invalid digests.  (A declared size
+				// that disagrees with the body is a call like any other: refused directly, so refused here.)
 				continue
 			}
 			if !w.step(op) {
